@@ -529,7 +529,39 @@ func c05FindSplitter(fn *ssa.Function) (split *ssa.Function, indexForm bool) {
 			return
 		}
 		sc := call.Call.StaticCallee()
-		if sc == nil || sc.Blocks == nil || sc.Signature.Recv() == nil || recvName(sc.Signature.Recv().Type()) != "Name" {
+		if sc == nil || sc.Blocks == nil {
+			return
+		}
+		// a method of Name, or a function of the package handed the name (splitGomaxprocs(n))
+		isMethod := sc.Signature.Recv() != nil && recvName(sc.Signature.Recv().Type()) == "Name"
+		isFunc := sc.Signature.Recv() == nil && sc.Pkg == fn.Pkg && sc.Parent() == nil && len(sc.Params) == 1 && len(call.Call.Args) == 1
+		if isFunc {
+			// handed the receiver (possibly converted to []byte)
+			a := call.Call.Args[0]
+			for {
+				if cv, ok := a.(*ssa.ChangeType); ok {
+					a = cv.X
+					continue
+				}
+				if cv, ok := a.(*ssa.Convert); ok {
+					a = cv.X
+					continue
+				}
+				break
+			}
+			isFunc = len(fn.Params) > 0 && a == ssa.Value(fn.Params[0])
+			// and it looks for the dash
+			dash := false
+			eachInstr(sc, func(_ *ssa.BasicBlock, in2 ssa.Instruction) {
+				if bo, ok := in2.(*ssa.BinOp); ok {
+					if k, ok := constInt(bo.Y); ok && k == '-' {
+						dash = true
+					}
+				}
+			})
+			isFunc = isFunc && dash
+		}
+		if !isMethod && !isFunc {
 			return
 		}
 		res := sc.Signature.Results()
